@@ -6,23 +6,46 @@
      oracle answers is an internal error, parse ends in Ok or a user error, and the fuel the entry point
      passes is never exhausted (every call returns).  This isolates exactly the recorded findings F18
      (.call) and F6-attr (non-finite integer attribute), which enter through those oracles.
-   PARTIAL: converters / fetch / extract / the argument interpreter's own logic are covered by the
+   - master.fetch(sources) (model, Proofs/FetchTotal.v): the internal errors fetch can end in are exactly
+     characterised (an internal error of the canonical-rendering oracle; AssertionError for a choice master
+     that does not list its alternatives; variable resolution over definitions without ids) and NONE occurs
+     when the oracle is crash-free, choice masters list their alternatives and sources are parsed documents
+     (master_ok / srcs_ok are evaluated on every well-formed case of the stream); fetch is structurally
+     recursive, so every call returns.
+   PARTIAL: converters / extract / the argument interpreter's own logic are covered by the
    correspondence streams (outcome classes compared on token soup, mutated documents and value texts). *)
 From Coq Require Import List Ascii String.
-From Phil Require Import Base Tokenizer Tree Parser LexProofs ParserTotal.
+From Phil Require Import Base Tokenizer Tree Parser LexProofs ParserTotal Vars Choice Fetch FetchTotal.
 
 Theorem C16_tokenize_no_crash : forall σ s c, tokenize σ s <> Crash c.
 Proof. exact tokenize_no_crash. Qed.
 Print Assumptions C16_tokenize_no_crash.
 
-Theorem C16_parse_no_crash : forall o s, oracle_ok o -> ok_res (parse o s).
+Theorem C16_parse_no_crash : forall o s, oracle_ok o -> ParserTotal.ok_res (parse o s).
 Proof. exact parse_total. Qed.
 Print Assumptions C16_parse_no_crash.
 
-Theorem C16_parse_no_crash_without_oracle : forall s, ok_res (parse nil s).
+Theorem C16_parse_no_crash_without_oracle : forall s, ParserTotal.ok_res (parse nil s).
 Proof. exact parse_total_no_oracle. Qed.
 Print Assumptions C16_parse_no_crash_without_oracle.
 
 Theorem C16_scan_for_start_never_goes_back : forall fuel s line, length (fst (fst (sfs fuel s line))) <= length s.
 Proof. exact sfs_le. Qed.
 Print Assumptions C16_scan_for_start_never_goes_back.
+
+Theorem C16_fetch_no_crash : forall env canon diff m srcs,
+  canon_ok canon -> master_ok m = true -> srcs_ok srcs = true ->
+  FetchTotal.ok_res (fetch env canon diff m srcs).
+Proof. exact fetch_total. Qed.
+Print Assumptions C16_fetch_no_crash.
+
+Theorem C16_fetch_track_no_crash : forall env canon diff marks0 m srcs,
+  canon_ok canon -> master_ok m = true -> srcs_ok srcs = true ->
+  FetchTotal.ok_res (fetch_track_marks env canon diff marks0 m srcs).
+Proof. exact fetch_track_total. Qed.
+Print Assumptions C16_fetch_track_no_crash.
+
+Theorem C16_fetch_crash_kinds : forall env canon diff m srcs c,
+  fetch env canon diff m srcs = Crash c -> fetch_crash canon c.
+Proof. exact fetch_crash_kinds. Qed.
+Print Assumptions C16_fetch_crash_kinds.
